@@ -249,7 +249,7 @@ func c07Run(tier string, seed int64, outdir string, replay string) error {
 			return err
 		}
 		in.Subj = c06Subject{}
-		if in.Backend == c07BackendFS {
+		if in.Backend == c07BackendFS || in.Backend == c07BackendFSErr {
 			base, err := os.MkdirTemp("", "c07fs-")
 			if err != nil {
 				return err
@@ -264,7 +264,7 @@ func c07Run(tier string, seed int64, outdir string, replay string) error {
 	// 1. fault-free runs: learn the number of Storage calls of every variant and where the save starts
 	variants := c07Variants()
 	type learned struct {
-		L, storeKey int
+		L, storeKey, storeComp int
 	}
 	info := make([]learned, len(variants))
 	for vi, v := range variants {
@@ -272,7 +272,7 @@ func c07Run(tier string, seed int64, outdir string, replay string) error {
 		in.Plan, in.Kind = c06Plan{From: -1, Crash: -1}, "none"
 		L, o := c07RunCase(w, in)
 		w.Hist(fmt.Sprintf("ops_in_faultfree_run=%d", L))
-		info[vi] = learned{L: L, storeKey: -1}
+		info[vi] = learned{L: L, storeKey: -1, storeComp: -1}
 		n := 0
 		for _, ev := range o.logEnc {
 			if ev[0] != 0 {
@@ -280,6 +280,9 @@ func c07Run(tier string, seed int64, outdir string, replay string) error {
 			}
 			if ev[1] == 0 && len(ev) >= 7 && ev[2] == 0 && ev[5] == 0 && ev[6] == 0 && info[vi].storeKey < 0 {
 				info[vi].storeKey = n // Store of a .key file
+			}
+			if ev[1] == 0 && len(ev) >= 7 && ev[2] == 0 && ev[5] == 3 && ev[6] == 0 && info[vi].storeComp < 0 {
+				info[vi].storeComp = n // Store of a .key.compromised file (quarantine)
 			}
 			n++
 		}
@@ -317,6 +320,41 @@ func c07Run(tier string, seed int64, outdir string, replay string) error {
 				Plan: c06Plan{From: -1, Crash: k}, Kind: "crash-after-k", Backend: c07BackendFS})
 		}
 	}
+	// storage errors on the real FileStorage (wrapper-injected, in process): quick = the three Stores of the
+	// save with {error at k, errors at k and k+1}; thorough = every index with {error at k, errors from k on,
+	// errors at k and k+1}
+	for vi, v := range variants {
+		if c07VariantMemoryOnly(v.Name) {
+			continue
+		}
+		var ks []int
+		if tier == "thorough" {
+			for k := 0; k < info[vi].L; k++ {
+				ks = append(ks, k)
+			}
+		} else if info[vi].storeKey >= 0 {
+			ks = []int{info[vi].storeKey, info[vi].storeKey + 1, info[vi].storeKey + 2}
+		}
+		for _, k := range ks {
+			plans := []struct {
+				kind string
+				p    c06Plan
+			}{
+				{"error-at-k", c06Plan{Fails: []int{k}, From: -1, Crash: -1}},
+				{"error-at-k-and-k+1", c06Plan{Fails: []int{k, k + 1}, From: -1, Crash: -1}},
+			}
+			if tier == "thorough" {
+				plans = append(plans, struct {
+					kind string
+					p    c06Plan
+				}{"errors-from-k", c06Plan{From: k, Crash: -1}})
+			}
+			for _, pl := range plans {
+				fsIns = append(fsIns, c07In{Variant: v.Name, Cfg: v.Cfg, Setup: v.Setup, Hop: v.Hop, Rec: recOrc,
+					Plan: pl.p, Kind: pl.kind, Backend: c07BackendFSErr})
+			}
+		}
+	}
 	base, err := os.MkdirTemp("", "c07fs-")
 	if err != nil {
 		return err
@@ -344,8 +382,14 @@ func c07Run(tier string, seed int64, outdir string, replay string) error {
 			}
 			if c07VariantMemoryOnly(v.Name) {
 				// forceRenew goes through the retrying (Async) entry points: a storage error there is retried
-				// with minutes of back-off, which the model does not have; process death needs no retry
-				plans = plans[:1]
+				// with minutes of back-off, which the model does not have; process death needs no retry - and
+				// neither do errors inside the quarantine of the compromised key, whose result is only logged
+				sc := info[vi].storeComp
+				if sc >= 0 && k >= sc-1 && k <= sc+1 {
+					plans = plans[:2]
+				} else {
+					plans = plans[:1]
+				}
 			}
 			for _, pl := range plans {
 				in := base
@@ -357,11 +401,12 @@ func c07Run(tier string, seed int64, outdir string, replay string) error {
 	}
 	nfs := c07EmitFS(w, <-fsDone)
 	w.Meta.Exhaustive = true
-	w.Meta.Universe = fmt.Sprintf("%d variants (obtain/renew x fresh/reused key x 1/2 issuers x which issuer holds the old bundle) x every Storage-call index k of the fault-free run x {crash after k, error at k, errors from k on, errors at k and k+1, errors at k and k+2, error at k then crash}: %d fault experiments on the in-memory double (exhaustive); plus %d real process deaths (child SIGKILLed after call k) on FileStorage", len(variants), total, nfs)
+	w.Meta.Universe = fmt.Sprintf("%d variants (obtain/renew x fresh/reused key x 1/2 issuers x which issuer holds the old bundle) x every Storage-call index k of the fault-free run x {crash after k, error at k, errors from k on, errors at k and k+1, errors at k and k+2, error at k then crash}: %d fault experiments on the in-memory double (exhaustive); plus %d experiments on the real FileStorage (real process deaths: child SIGKILLed after call k; and wrapper-injected storage errors)", len(variants), total, nfs)
 	return nil
 }
 
 const c07BackendFS = "filestorage-sigkill"
+const c07BackendFSErr = "filestorage-errors"
 
 // c07RunFSCases runs the process-death experiments, at most width at a time.
 func c07RunFSCases(ins []c07In, base string, width int) []c07FSResult {
